@@ -357,6 +357,69 @@ theorem Done.of_le {l l1 l' : Lexer} (h : Done l1 l')
 theorem Moves.done {l l1 l' : Lexer} (hm : Moves l l1) (hok : Ok l) (h : Done l1 l') : Done l l' :=
   h.of_le (by rw [hm.unread_eq hok, hm.frame.items]; exact Nat.le_refl _) hm.rest_le
 
+@[simp] theorem setState_fault (s : LState) (l : Lexer) : (setState s l).fault = l.fault := rfl
+@[simp] theorem setState_before (s : LState) (l : Lexer) : (setState s l).before = l.before := rfl
+@[simp] theorem setState_rest (s : LState) (l : Lexer) : (setState s l).rest = l.rest := rfl
+@[simp] theorem setState_start (s : LState) (l : Lexer) : (setState s l).start = l.start := rfl
+@[simp] theorem setState_items (s : LState) (l : Lexer) : (setState s l).items = l.items := rfl
+@[simp] theorem setState_state (s : LState) (l : Lexer) : (setState s l).state = s := rfl
+@[simp] theorem setState_errout (s : LState) (l : Lexer) : (setState s l).errout = l.errout := rfl
+@[simp] theorem setState_unread (s : LState) (l : Lexer) : unread (setState s l) = unread l := rfl
+
+/-- nothing was queued, the measure has not grown -/
+structure Step (l l' : Lexer) : Prop where
+  ok : Ok l'
+  items : l'.items = l.items
+  unread_le : unread l' ≤ unread l
+  rest_le : l'.rest.length ≤ l.rest.length
+
+theorem Moves.step {l l' : Lexer} (hm : Moves l l') (hok : Ok l) : Step l l' :=
+  ⟨hm.ok hok, hm.frame.items, by rw [hm.unread_eq hok]; exact Nat.le_refl _, hm.rest_le⟩
+
+theorem Step.trans {a b c : Lexer} (h1 : Step a b) (h2 : Step b c) : Step a c :=
+  ⟨h2.ok, h2.items.trans h1.items, Nat.le_trans h2.unread_le h1.unread_le, Nat.le_trans h2.rest_le h1.rest_le⟩
+
+theorem Step.done {l l1 l' : Lexer} (hs : Step l l1) (h : Done l1 l') : Done l l' :=
+  h.of_le (by rw [hs.items]; have := hs.unread_le; omega) hs.rest_le
+
+theorem consume_step (l : Lexer) (hok : Ok l) :
+    Step l (consume l) ∧ (consume l).start = l.before.length ∧ (consume l).before = l.before ∧
+    (consume l).rest = l.rest := by
+  unfold consume Lexer.pos
+  refine ⟨⟨⟨hok.fault, Nat.le_refl _⟩, rfl, ?_, Nat.le_refl _⟩, rfl, rfl, rfl⟩
+  simp only [unread]; omega
+
+theorem emit_done (c : Code) (l : Lexer) (hok : Ok l) (hlt : l.start < l.before.length) :
+    Done l (setState .ground (emit c l)) := by
+  obtain ⟨e1, e2, e3, e4, e5, e6, e7, _, _⟩ := emit_spec c l hok.start_le
+  refine ⟨⟨by simp only [setState_fault]; rw [e1]; exact hok.fault,
+      by simp only [setState_start, setState_before]; rw [e4, e2]; exact Nat.le_refl _⟩,
+    Or.inl rfl, by simp only [setState_items]; exact e7, ?_, by simp only [setState_rest]; rw [e3]; exact Nat.le_refl _⟩
+  simp only [setState_items, setState_state, unread, weight, setState_rest, setState_before, setState_start]
+  rw [e2, e3, e4]
+  omega
+
+/-- reporting an error and stopping -/
+theorem reports_done {l l1 l' : Lexer} (hs : Step l l1) (hr : Reports l1 l')
+    (hlt : l1.rest.length ≤ unread l) : Done l (setState .done l') := by
+  refine ⟨⟨hr.ok.fault, hr.ok.start_le⟩, Or.inr rfl, hr.items_ne, ?_, ?_⟩
+  · have h1 := hr.items_le
+    have h2 := hr.unread_le
+    rw [hs.items] at h1
+    show l'.items.length + unread l' + 0 ≤ _
+    omega
+  · have := hr.rest_le; have := hs.rest_le; show l'.rest.length ≤ _; omega
+
+theorem emitText_done (c : Code) (text : List UInt8) (l : Lexer) (hok : Ok l) (hlt : l.start < l.before.length) :
+    Done l (setState .ground (emitText c text l)) := by
+  obtain ⟨e1, e2, e3, e4, e5, e6, e7, _, _⟩ := emitText_spec c text l
+  refine ⟨⟨by simp only [setState_fault]; rw [e1]; exact hok.fault,
+      by simp only [setState_start, setState_before]; rw [e4, e2]; exact Nat.le_refl _⟩,
+    Or.inl rfl, by simp only [setState_items]; exact e7, ?_, by simp only [setState_rest]; rw [e3]; exact Nat.le_refl _⟩
+  simp only [setState_items, setState_state, unread, weight, setState_rest, setState_before, setState_start]
+  rw [e2, e3, e4]
+  omega
+
 theorem isUnqDelim_eof : isUnqDelim eofRune = true := by simp [isUnqDelim]
 
 /-- `lexUnquoted`: the token is not empty (`start < pos` or the next rune is no delimiter) -/
@@ -379,13 +442,7 @@ theorem unquotedLoop_done : ∀ (f : Nat) (l : Lexer), Ok l → l.rest.length + 
         · exact h
         · rw [h] at hd; cases hd
       have hok1 := hp.ok hok
-      obtain ⟨e1, e2, e3, e4, e5, e6, e7, _, _⟩ := emit_spec .unquoted (peek l).2 hok1.start_le
-      refine ⟨⟨by simp only; rw [e1]; exact hok1.fault, by simp only; rw [e4, e2]; exact Nat.le_refl _⟩,
-        Or.inl rfl, by simp only; exact e7, ?_, by simp only; rw [e3, hps.2.1]; exact Nat.le_refl _⟩
-      simp only [unread, weight]
-      rw [e2, e3, e4, hps.1, hps.2.1]
-      rw [hps.2.2.items] at e6
-      omega
+      exact hp.done hok (emit_done .unquoted _ hok1 (by rw [hps.2.2.start, hps.1]; exact hlt))
     · rename_i hd
       rw [peek_fst] at hd
       have hne : l.rest ≠ [] := by
@@ -410,6 +467,15 @@ theorem lexUnquoted_done (l : Lexer) (hok : Ok l)
     (hj : l.start < l.before.length ∨ isUnqDelim (next l).1 = false) : Done l (lexUnquoted l) :=
   unquotedLoop_done _ l hok (Nat.le_refl _) hj
 
+/-- after `next` on a non-empty rest the token under construction is not empty -/
+theorem next_start_lt (l : Lexer) (hok : Ok l) (hne : l.rest ≠ []) :
+    (next l).2.start < (next l).2.before.length ∧ (next l).2.rest.length + 1 ≤ l.rest.length := by
+  have hm := next_move l
+  have := hm.2.2 hne
+  rw [(next_frame l).start]
+  have := hok.start_le
+  omega
+
 theorem next_eof_iff (l : Lexer) : (next l).1 = eofRune ↔ l.rest = [] := by
   constructor
   · intro h
@@ -433,21 +499,12 @@ theorem qstringLoop_done (indent line col : Int) : ∀ (f : Nat) (text : List UI
     have hmv := next_move l
     by_cases heof : (next l).1 = eofRune
     · rw [if_pos heof]
-      have hr := errorfAt_reports line col .missingDQuote (next l).2 hok1
       have hrest : l.rest = [] := (next_eof_iff l).1 heof
-      have h1 := hr.items_le
-      have h2 := hr.unread_le
-      have h3 := hr.rest_le
+      refine reports_done (hm1.step hok) (errorfAt_reports line col .missingDQuote (next l).2 hok1) ?_
       have h4 := hm1.rest_le
-      rw [hm1.frame.items] at h1
-      refine ⟨⟨hr.ok.fault, hr.ok.start_le⟩, Or.inr rfl, hr.items_ne, ?_, by simp only; omega⟩
-      simp only [weight]
       rw [hrest] at h4
       simp at h4
-      show (errorfAt line col .missingDQuote (next l).2).items.length +
-        unread (errorfAt line col .missingDQuote (next l).2) + 0 ≤ _
-      unfold unread at h2 ⊢
-      omega
+      unfold unread; omega
     · rw [if_neg heof]
       have hne : l.rest ≠ [] := fun h => heof ((next_eof_iff l).2 h)
       have hw := hmv.2.2 hne
@@ -480,18 +537,7 @@ theorem qstringLoop_done (indent line col : Int) : ∀ (f : Nat) (text : List UI
         · have := hr.rest_le; have := hm2.rest_le; omega
       split
       · -- closing quote
-        obtain ⟨e1, e2, e3, e4, e5, e6, e7, _, _⟩ := emitText_spec .string text (next l).2
-        refine ⟨⟨by simp only; rw [e1]; exact hok1.fault, by simp only; rw [e4, e2]; exact Nat.le_refl _⟩,
-          Or.inl rfl, by simp only; exact e7, ?_, by simp only; rw [e3]; exact hm1.rest_le⟩
-        simp only [unread, weight]
-        rw [e2, e3, e4]
-        rw [hm1.frame.items] at e6
-        have hu := hm1.unread_eq hok
-        have hp1 := hmv.1
-        have hs := hok.start_le
-        have hst := hm1.frame.start
-        unfold unread at hu
-        omega
+        exact hm1.done hok (emitText_done .string text _ hok1 (next_start_lt l hok hne).1)
       · split
         · exact rec1 _ _
         · split
@@ -512,49 +558,6 @@ theorem qstringLoop_done (indent line col : Int) : ∀ (f : Nat) (text : List UI
 
 theorem lexQString_done (l : Lexer) (hok : Ok l) : Done l (lexQString l) :=
   qstringLoop_done _ _ _ _ _ _ l hok (by omega)
-
-/-- nothing was queued, the measure has not grown -/
-structure Step (l l' : Lexer) : Prop where
-  ok : Ok l'
-  items : l'.items = l.items
-  unread_le : unread l' ≤ unread l
-  rest_le : l'.rest.length ≤ l.rest.length
-
-theorem Moves.step {l l' : Lexer} (hm : Moves l l') (hok : Ok l) : Step l l' :=
-  ⟨hm.ok hok, hm.frame.items, by rw [hm.unread_eq hok]; exact Nat.le_refl _, hm.rest_le⟩
-
-theorem Step.trans {a b c : Lexer} (h1 : Step a b) (h2 : Step b c) : Step a c :=
-  ⟨h2.ok, h2.items.trans h1.items, Nat.le_trans h2.unread_le h1.unread_le, Nat.le_trans h2.rest_le h1.rest_le⟩
-
-theorem Step.done {l l1 l' : Lexer} (hs : Step l l1) (h : Done l1 l') : Done l l' :=
-  h.of_le (by rw [hs.items]; have := hs.unread_le; omega) hs.rest_le
-
-theorem consume_step (l : Lexer) (hok : Ok l) :
-    Step l (consume l) ∧ (consume l).start = l.before.length ∧ (consume l).before = l.before ∧
-    (consume l).rest = l.rest := by
-  unfold consume Lexer.pos
-  refine ⟨⟨⟨hok.fault, Nat.le_refl _⟩, rfl, ?_, Nat.le_refl _⟩, rfl, rfl, rfl⟩
-  simp only [unread]; omega
-
-theorem emit_done (c : Code) (l : Lexer) (hok : Ok l) (hlt : l.start < l.before.length) :
-    Done l (setState .ground (emit c l)) := by
-  obtain ⟨e1, e2, e3, e4, e5, e6, e7, _, _⟩ := emit_spec c l hok.start_le
-  refine ⟨⟨by simp only; rw [e1]; exact hok.fault, by simp only; rw [e4, e2]; exact Nat.le_refl _⟩,
-    Or.inl rfl, by simp only; exact e7, ?_, by simp only; rw [e3]; exact Nat.le_refl _⟩
-  simp only [unread, weight]
-  rw [e2, e3, e4]
-  omega
-
-/-- reporting an error and stopping -/
-theorem reports_done {l l1 l' : Lexer} (hs : Step l l1) (hr : Reports l1 l')
-    (hlt : l1.rest.length + 1 ≤ unread l) : Done l (setState .done l') := by
-  refine ⟨⟨hr.ok.fault, hr.ok.start_le⟩, Or.inr rfl, hr.items_ne, ?_, ?_⟩
-  · have h1 := hr.items_le
-    have h2 := hr.unread_le
-    rw [hs.items] at h1
-    show l'.items.length + unread l' + 0 ≤ _
-    omega
-  · have := hr.rest_le; have := hs.rest_le; show l'.rest.length ≤ _; omega
 
 /-- what one run of `lexGround` achieves -/
 def GroundPost (l l' : Lexer) : Prop :=
@@ -581,15 +584,6 @@ theorem groundStart_spec (l : Lexer) (hok : Ok l) :
     unfold consume; exact hma.frame.state
   · rw [next_fst_congr _ (acceptRun l).2 (by show (consume (acceptRun l).2).rest = _; exact hc.2.2.2)]
     exact ha.2.2.2
-
-/-- after `next` on a non-empty rest the token under construction is not empty -/
-theorem next_start_lt (l : Lexer) (hok : Ok l) (hne : l.rest ≠ []) :
-    (next l).2.start < (next l).2.before.length ∧ (next l).2.rest.length + 1 ≤ l.rest.length := by
-  have hm := next_move l
-  have := hm.2.2 hne
-  rw [(next_frame l).start]
-  have := hok.start_le
-  omega
 
 theorem groundSQuote_done (l : Lexer) (hok : Ok l) (hne : l.rest ≠ []) : Done l (groundSQuote l) := by
   unfold groundSQuote
@@ -629,7 +623,7 @@ theorem groundSQuote_done (l : Lexer) (hok : Ok l) (hne : l.rest ≠ []) : Done 
       rw [e3] at this
       have := hs3.rest_le
       omega
-  · exact reports_done hs3 (errorfAt_reports _ _ _ _ hs3.ok) hur
+  · exact reports_done hs3 (errorfAt_reports _ _ _ _ hs3.ok) (Nat.le_of_succ_le hur)
 
 theorem groundPlus_post (l : Lexer) (hok : Ok l) (hne : l.rest ≠ []) : GroundPost l (groundPlus l) := by
   unfold groundPlus
@@ -670,7 +664,7 @@ theorem groundSlash_post (l : Lexer) (hok : Ok l) (hne : l.rest ≠ []) : Ground
       show (skipTo [10] (peek (next l).2).2).2.rest.length + 1 ≤ _
       omega
     · exact Or.inl (reports_done (hm3.step hok) (errorfAt_reports _ _ _ _ (hm3.ok hok))
-        (hun _ (skipTo_moves [10] (peek (next l).2).2).rest_le))
+        (Nat.le_of_succ_le (hun _ (skipTo_moves [10] (peek (next l).2).2).rest_le)))
   · split
     · -- `/*`
       have hm3 := hm2.trans (next_moves (peek (next l).2).2)
@@ -687,7 +681,209 @@ theorem groundSlash_post (l : Lexer) (hok : Ok l) (hne : l.rest ≠ []) : Ground
         have h6 := (next_moves (next (skipTo [42, 47] (next (peek (next l).2).2).2).2).2).rest_le
         show (next (next (skipTo [42, 47] (next (peek (next l).2).2).2).2).2).2.rest.length + 1 ≤ _
         omega
-      · exact Or.inl (reports_done (hm4.step hok) (errorfAt_reports _ _ _ _ (hm4.ok hok)) (hun _ hr4))
+      · exact Or.inl (reports_done (hm4.step hok) (errorfAt_reports _ _ _ _ (hm4.ok hok)) (Nat.le_of_succ_le (hun _ hr4)))
     · exact Or.inr ⟨(hm2.step hok).with_state _, Or.inr (Or.inr (Or.inl ⟨rfl, Or.inl hlt2⟩))⟩
+
+theorem lexGround_post (l : Lexer) (hok : Ok l) : GroundPost l (lexGround l) := by
+  unfold lexGround
+  simp only
+  obtain ⟨hs0, hst0, _, hsp0⟩ := groundStart_spec l hok
+  have hok0 := hs0.ok
+  have hpm := peek_moves (groundStart l)
+  have hps := peek_snd (groundStart l)
+  have hs1 := hs0.trans (hpm.step hok0)
+  have hok1 := hs1.ok
+  have hc : (peek (groundStart l)).1 = (next (peek (groundStart l)).2).1 := by
+    rw [peek_fst]; exact (next_fst_congr _ _ hps.2.1).symm
+  -- transfer a result about the lexer after the peek to `l`
+  have lift : ∀ l', GroundPost (peek (groundStart l)).2 l' → GroundPost l l' := by
+    intro l' h
+    rcases h with h | ⟨h1, h2⟩
+    · exact Or.inl (hs1.done h)
+    · refine Or.inr ⟨hs1.trans h1, ?_⟩
+      rcases h2 with h | h | h | ⟨h, hr⟩
+      · exact Or.inl h
+      · exact Or.inr (Or.inl h)
+      · exact Or.inr (Or.inr (Or.inl h))
+      · exact Or.inr (Or.inr (Or.inr ⟨h, by have := hs1.rest_le; omega⟩))
+  split
+  · exact Or.inr ⟨hs1.with_state _, Or.inl rfl⟩
+  · rename_i heof
+    have hne : (peek (groundStart l)).2.rest ≠ [] := by
+      intro h
+      apply heof
+      rw [hc]; exact (next_eof_iff _).2 h
+    split
+    · exact Or.inl (hs1.done ((next_moves _).done hok1 (emit_done _ _ ((next_moves _).ok hok1)
+        (next_start_lt _ hok1 hne).1)))
+    · split
+      · exact Or.inl (hs1.done (groundSQuote_done _ hok1 hne))
+      · split
+        · exact Or.inr ⟨(hs1.trans ((next_moves _).step hok1)).with_state _, Or.inr (Or.inl rfl)⟩
+        · split
+          · exact lift _ (groundSlash_post _ hok1 hne)
+          · split
+            · exact lift _ (groundPlus_post _ hok1 hne)
+            · rename_i h1 h2 h3 h4 h5
+              refine Or.inr ⟨hs1.with_state _, Or.inr (Or.inr (Or.inl ⟨rfl, Or.inr ?_⟩))⟩
+              rw [next_fst_congr (setState .unquoted (peek (groundStart l)).2) (peek (groundStart l)).2 rfl]
+              rw [← hc]
+              rw [peek_fst] at h1 h2 h3 heof ⊢
+              unfold isSpaceRune at hsp0
+              unfold isUnqDelim
+              simp only [Bool.or_eq_true, decide_eq_true_eq, not_or] at h1
+              simp only [Bool.or_eq_false_iff, decide_eq_false_iff_not] at hsp0 ⊢
+              refine ⟨⟨⟨⟨⟨⟨⟨⟨⟨hsp0.1.1.1, hsp0.1.2⟩, hsp0.2⟩, hsp0.1.1.2⟩, h1.1.1⟩, h3⟩, h2⟩, h1.1.2⟩, h1.2⟩, heof⟩
+
+/-! ## `NextToken` -/
+
+/-- what a call of `NextToken` guarantees -/
+structure TokPost (l : Lexer) (r : Option Token × Lexer) : Prop where
+  ok : Ok r.2
+  st : r.2.state = .ground ∨ r.2.state = .done
+  rest_le : r.2.rest.length ≤ l.rest.length
+  some_rank : ∀ t, r.1 = some t → rank r.2 + 1 ≤ rank l
+  none_rank : r.1 = none → rank r.2 ≤ rank l ∧ r.2.state = .done ∧ r.2.items = []
+
+theorem nextTokenLoop_pop (f : Nat) (l : Lexer) (t : Token) (ts : List Token) (h : l.items = t :: ts) :
+    nextTokenLoop (f + 1) l = (some t, { l with items := ts }) := by
+  unfold nextTokenLoop
+  rw [h]
+
+/-- popping the token a finished state function has queued -/
+theorem pop_after_done (f : Nat) (l l1 : Lexer) (hd : Done l l1) (hi : l.items = []) (hw : weight l.state = 1) :
+    TokPost l (nextTokenLoop (f + 1) l1) := by
+  cases hit : l1.items with
+  | nil => exact absurd hit hd.items_ne
+  | cons t ts =>
+    rw [nextTokenLoop_pop f l1 t ts hit]
+    refine ⟨⟨hd.ok.fault, hd.ok.start_le⟩, hd.st, hd.rest_le, ?_, ?_⟩
+    · intro _ _
+      have := hd.rank_le
+      rw [hit, hi] at this
+      simp only [List.length_cons, List.length_nil] at this
+      show ts.length + unread l1 + weight l1.state + 1 ≤ rank l
+      unfold rank
+      rw [hi, hw]
+      simp only [List.length_nil]
+      omega
+    · intro h; cases h
+
+theorem nextTokenLoop_spec : ∀ (n f : Nat) (l : Lexer), l.rest.length ≤ n → n + 3 ≤ f → Ok l →
+    (l.state = .ground ∨ l.state = .done) → TokPost l (nextTokenLoop f l) := by
+  intro n
+  induction n with
+  | zero =>
+    intro f l hn hf hok hst
+    obtain ⟨f, rfl⟩ : ∃ f', f = f' + 1 := ⟨f - 1, by omega⟩
+    cases hit : l.items with
+    | cons t ts =>
+      rw [nextTokenLoop_pop f l t ts hit]
+      refine ⟨⟨hok.fault, hok.start_le⟩, hst, Nat.le_refl _, ?_, fun h => by cases h⟩
+      intro _ _
+      show ts.length + unread l + weight l.state + 1 ≤ rank l
+      unfold rank; rw [hit]; simp only [List.length_cons]; omega
+    | nil =>
+      unfold nextTokenLoop
+      rw [hit]
+      simp only
+      rcases hst with hst | hst
+      · rw [hst]
+        simp only
+        obtain ⟨f, rfl⟩ : ∃ f', f = f' + 1 := ⟨f - 1, by omega⟩
+        have hw : weight l.state = 1 := by rw [hst]; rfl
+        rcases lexGround_post l hok with hd | ⟨hs, h⟩
+        · exact pop_after_done f l _ hd hit hw
+        · rcases h with h | h | ⟨h, hj⟩ | ⟨h, hr⟩
+          · -- stopped
+            unfold nextTokenLoop
+            rw [hs.items, hit, h]
+            simp only
+            refine ⟨hs.ok, Or.inr h, hs.rest_le, (fun _ h => by cases h), fun _ => ⟨?_, h, by rw [hs.items, hit]⟩⟩
+            unfold rank
+            rw [hs.items, hit, h, hst]
+            have := hs.unread_le
+            simp only [weight, List.length_nil]; omega
+          · -- double-quoted string
+            unfold nextTokenLoop
+            rw [hs.items, hit, h]
+            simp only
+            obtain ⟨f, rfl⟩ : ∃ f', f = f' + 1 := ⟨f - 1, by omega⟩
+            have hd := hs.done (lexQString_done _ hs.ok)
+            exact pop_after_done f l _ hd hit hw
+          · unfold nextTokenLoop
+            rw [hs.items, hit, h]
+            simp only
+            obtain ⟨f, rfl⟩ : ∃ f', f = f' + 1 := ⟨f - 1, by omega⟩
+            have hd := hs.done (lexUnquoted_done _ hs.ok hj)
+            exact pop_after_done f l _ hd hit hw
+          · omega
+      · rw [hst]
+        simp only
+        refine ⟨hok, Or.inr hst, Nat.le_refl _, (fun _ h => by cases h), fun _ => ⟨Nat.le_refl _, hst, hit⟩⟩
+  | succ n ih =>
+    intro f l hn hf hok hst
+    obtain ⟨f, rfl⟩ : ∃ f', f = f' + 1 := ⟨f - 1, by omega⟩
+    cases hit : l.items with
+    | cons t ts =>
+      rw [nextTokenLoop_pop f l t ts hit]
+      refine ⟨⟨hok.fault, hok.start_le⟩, hst, Nat.le_refl _, ?_, fun h => by cases h⟩
+      intro _ _
+      show ts.length + unread l + weight l.state + 1 ≤ rank l
+      unfold rank; rw [hit]; simp only [List.length_cons]; omega
+    | nil =>
+      unfold nextTokenLoop
+      rw [hit]
+      simp only
+      rcases hst with hst | hst
+      · rw [hst]
+        simp only
+        obtain ⟨f, rfl⟩ : ∃ f', f = f' + 1 := ⟨f - 1, by omega⟩
+        have hw : weight l.state = 1 := by rw [hst]; rfl
+        rcases lexGround_post l hok with hd | ⟨hs, h⟩
+        · exact pop_after_done f l _ hd hit hw
+        · rcases h with h | h | ⟨h, hj⟩ | ⟨h, hr⟩
+          · unfold nextTokenLoop
+            rw [hs.items, hit, h]
+            simp only
+            refine ⟨hs.ok, Or.inr h, hs.rest_le, (fun _ h => by cases h), fun _ => ⟨?_, h, by rw [hs.items, hit]⟩⟩
+            unfold rank
+            rw [hs.items, hit, h, hst]
+            have := hs.unread_le
+            simp only [weight, List.length_nil]; omega
+          · unfold nextTokenLoop
+            rw [hs.items, hit, h]
+            simp only
+            obtain ⟨f, rfl⟩ : ∃ f', f = f' + 1 := ⟨f - 1, by omega⟩
+            have hd := hs.done (lexQString_done _ hs.ok)
+            exact pop_after_done f l _ hd hit hw
+          · unfold nextTokenLoop
+            rw [hs.items, hit, h]
+            simp only
+            obtain ⟨f, rfl⟩ : ∃ f', f = f' + 1 := ⟨f - 1, by omega⟩
+            have hd := hs.done (lexUnquoted_done _ hs.ok hj)
+            exact pop_after_done f l _ hd hit hw
+          · -- a comment was skipped: once more from the ground state, with less input
+            have hr' := ih (f + 1) (lexGround l) (by omega) (by omega) hs.ok (Or.inl h)
+            refine ⟨hr'.ok, hr'.st, Nat.le_trans hr'.rest_le hs.rest_le, ?_, ?_⟩
+            · intro t ht
+              have h1 := hr'.some_rank t ht
+              have h2 : rank (lexGround l) ≤ rank l := by
+                unfold rank; rw [hs.items, h, hst]; have := hs.unread_le; omega
+              omega
+            · intro hnone
+              obtain ⟨h1, h2, h3⟩ := hr'.none_rank hnone
+              refine ⟨?_, h2, h3⟩
+              have h2 : rank (lexGround l) ≤ rank l := by
+                unfold rank; rw [hs.items, h, hst]; have := hs.unread_le; omega
+              omega
+      · rw [hst]
+        simp only
+        refine ⟨hok, Or.inr hst, Nat.le_refl _, (fun _ h => by cases h), fun _ => ⟨Nat.le_refl _, hst, hit⟩⟩
+
+/-- `NextToken` never faults, and a token handed out lowers `rank` -/
+theorem nextToken_spec (l : Lexer) (hok : Ok l) (hst : l.state = .ground ∨ l.state = .done) :
+    TokPost l (nextToken l) :=
+  nextTokenLoop_spec l.rest.length _ l (Nat.le_refl _) (Nat.le_refl _) hok hst
 
 end Goyang.Lemmas.Lex
